@@ -288,6 +288,21 @@ func checkErrStream(c ErrStreamCase, cv *cov) *evid.Violation {
 	if p != nil {
 		return &evid.Violation{Msg: fmt.Sprintf("BufferReader %s panicked: %v", c.Fn, p), Stack: st}
 	}
+	if err != nil {
+		// the pooled reader object is used again on a stream that fails with a different error; the error
+		// returned earlier is a value the caller may still hold and must keep matching its own cause
+		other := faultio.Plan{Chunks: []int{0}, ErrAt: 0, ErrKind: (sr.Plan.ErrKind + 1) % 4}
+		sr2 := faultio.NewScriptReader(b, other)
+		r2 := thrift.NewBufferReader(bufiox.NewDefaultReader(sr2))
+		_, err2 := r2.ReadI64()
+		r2.Recycle()
+		if err2 == nil || !errors.Is(err2, sr2.Plan.Err()) {
+			return evid.Failf("BufferReader.ReadI64 on a source failing at once with %q returned %v", sr2.Plan.Err(), err2)
+		}
+		if !errors.Is(err, injected) {
+			return evid.Failf("the error returned by BufferReader %s (source error %q) stopped matching its source error after the pooled reader was recycled and failed again with %q: it now reads %q", c.Fn, injected, sr2.Plan.Err(), err)
+		}
+	}
 	if err == nil {
 		// a field begin may legitimately succeed on STOP etc.; needing fewer bytes than errAt is fine
 		cv.label("call_needed_fewer_bytes")
@@ -341,7 +356,7 @@ func genErrStreamCase(t *rapid.T) ErrStreamCase {
 		Chunks:   rapid.SliceOfN(rapid.SampledFrom([]int{0, 1, 3, 7}), 1, 2).Draw(t, "chunks"),
 		Zeros:    []int{rapid.SampledFrom([]int{0, 0, 1, 3}).Draw(t, "z")},
 		WithData: rapid.Bool().Draw(t, "wd"),
-		ErrKind:  rapid.IntRange(0, 3).Draw(t, "ek"),
+		ErrKind:  rapid.IntRange(0, 4).Draw(t, "ek"),
 	}
 	if len(b) > 0 {
 		c.Plan.ErrAt = rapid.IntRange(0, len(b)-1).Draw(t, "errAt")
@@ -447,7 +462,7 @@ func TestC17_Stream(t *testing.T) {
 	fixed = append(fixed, ErrStreamCase{Fn: "skip", T: ref.STRUCT, Data: enc})
 	for _, fc := range fixed {
 		for at := 0; at < len(fc.Data); at++ {
-			for ek := 0; ek < 4; ek++ {
+			for ek := 0; ek < 5; ek++ {
 				for _, wd := range []bool{false, true} {
 					for _, ch := range []int{0, 1, 3} {
 						c := fc
@@ -473,4 +488,10 @@ func TestC17_Stream(t *testing.T) {
 	}
 	rec.Merge(b)
 	runRapid(t, rec, "c17_stream", evid.Pick(30000, 300000), genErrStreamCase, checkErrStream)
+}
+
+func init() {
+	// ErrKind 4: a source error that is itself a wrapper around a protocol exception (e.g. a proxy that failed
+	// while decoding upstream); the stream reader must still hand back an error matching the outer value
+	faultio.CustomErr = fmt.Errorf("upstream conn 7: %w", thrift.NewProtocolException(thrift.INVALID_DATA, "upstream sent garbage"))
 }
